@@ -208,7 +208,7 @@ class OutboxRelay(Entity):
         # Collect pending entries up to batch_size
         pending = [e for e in self._entries if not e.relayed][: self._batch_size]
 
-        relay_events: list[Event] = []
+        relayed: list[OutboxEntry] = []
         for entry in pending:
             entry.relayed = True
             self._entries_relayed += 1
@@ -219,24 +219,30 @@ class OutboxRelay(Entity):
             if lag > self._relay_lag_max:
                 self._relay_lag_max = lag
 
-            relay_events.append(
-                Event(
-                    time=self.now,
-                    event_type="outbox_relay",
-                    target=self._downstream,
-                    context={
-                        "metadata": {
-                            "outbox_name": self.name,
-                            "entry_id": entry.entry_id,
-                        },
-                        "payload": entry.payload,
-                    },
-                )
-            )
+            relayed.append(entry)
 
             # Simulate relay latency between entries
             if self._relay_latency > 0:
                 yield self._relay_latency
+
+        # The relay events are scheduled when this generator returns: stamp them
+        # with the clock after the latency waits (an event stamped before a wait
+        # lies in the past by then and the engine would skip it).
+        relay_events: list[Event] = [
+            Event(
+                time=self.now,
+                event_type="outbox_relay",
+                target=self._downstream,
+                context={
+                    "metadata": {
+                        "outbox_name": self.name,
+                        "entry_id": entry.entry_id,
+                    },
+                    "payload": entry.payload,
+                },
+            )
+            for entry in relayed
+        ]
 
         logger.debug(
             "[%s] Poll cycle: relayed %d entries, %d remaining",
